@@ -54,9 +54,8 @@ class Gen:
                 self.recipes = rng.sample(["AddedDiag", "AddedDiag", "KroneckerAddedDiag", "LowRankRootAddedDiag", "Dense", "Toeplitz", "Root"], 3) + ["AddedDiag"]
                 self.queries = ["logdet", "inv_quad_logdet", "preconditioner", "solve", "inv_quad"] + rng.sample(world.PSD_QUERIES, 2)
                 self.derives = rng.sample(["add_jitter", "add_diagonal", "mul_scalar", "getitem", "expand", "clone", "add_op"], 3)
-                self._theme_flippable = ["max_preconditioner_size", "max_preconditioner_size", "max_preconditioner_size", "max_preconditioner_size",
-                                         "min_preconditioning_size", "max_cholesky_size", "fast_log_prob", "fast_solves", "preconditioner_tolerance",
-                                         "num_trace_samples", "deterministic_probes"]
+                self._theme_flippable = ["max_preconditioner_size"] * 7 + ["min_preconditioning_size", "max_cholesky_size", "fast_log_prob", "fast_solves",
+                                                                           "preconditioner_tolerance", "num_trace_samples", "deterministic_probes"]
                 self.focus_classes = ("AddedDiagLinearOperator", "KroneckerProductAddedDiagLinearOperator", "LowRankRootAddedDiagLinearOperator")
                 self.steps = rng.randint(8, 14) if tier != "thorough" else rng.randint(8, 26)
                 self._theme_initial = [("max_cholesky_size", 0), ("min_preconditioning_size", 0), ("cg_tolerance", 1e-9),
@@ -104,7 +103,7 @@ class Gen:
             "max_cg_iterations": [1000, 3 * N + 24, 3 * N + 24, 3],
             "max_lanczos_quadrature_iterations": [20, 20, 3, N + 2],
             "num_trace_samples": [10, 10, 1, 40],
-            "max_preconditioner_size": [15, 15, 0, 2, 3],
+            "max_preconditioner_size": [15, 15, 0, 2, 3] if self.theme != "precond" else [15, 2, 3, 2, 3, 1],
             "min_preconditioning_size": [2000, 0, 0],
             "cg_tolerance": [1, 1, 1e-3, 1e-9],
             "tridiagonal_jitter": [1e-6, 1e-6, 0.0, 1e-3],
